@@ -437,7 +437,7 @@ theorem finishEnd_spec {r : AReq} {rest : Bytes} {m : MutexSt} {t : Transport}
       subst hr'
       refine ⟨?_, ?_, done, [], ?_, hd, ?_, ?_, Or.inl ⟨rfl, ?_⟩⟩
       all_goals
-        unfold closeDecision
+        try unfold closeDecision
         repeat' (split at h)
         all_goals first
           | (cases h; first | rfl | exact hl | exact hin | simp_all)
